@@ -57,6 +57,8 @@ func e5Obligations(p *Prog, r *Report, rule string) {
 }
 
 func runC17(p *Prog, r *Report) {
+	fieldFrees(p, r, "C17.10/field-frees", func(rel string) bool { return strings.HasPrefix(rel, "protocol/") || strings.HasPrefix(rel, "transport") || rel == "internal/core" }, fieldFreeAllowed)
+	r.Floor("C17.10/field-frees", "field_frees.C17.10/field-frees", 3)
 	r.Describe("C17.1/E5", "message ownership typestate: double release, use after release/hand-off, release on an error return of Send/SendMsg, MakeUnique result discarded, retained message handed off without Clone, released message returned")
 	e5Obligations(p, r, "C17.1/E5")
 	r.Floor("C17.1/E5", "e5.functions_touching_messages", 100)
